@@ -289,10 +289,22 @@ def run(C, R):
                    '%s:%s' % (clear['file'], clear['line']))
         from rl import lift_private_callers
         callers = lift_private_callers(F, CG, clear['path']) if clears_ else [clear['path']]
+        def _clear_events(path):
+            evs = [e for e in path.events if e['k'] == 'call' and e['callee'] == clear['path']]
+            if not clears_:
+                # folded: the drain loop's own buffer accesses are the discard
+                evs = [e for e in path.events if e['k'] == 'call' and e.get('name') in ('is_empty', 'pop')
+                       and 'RingBuf' in e.get('callee', '') and e.get('fn') == clear['path']]
+            return evs
+
         for c in callers:
             cf = F.fn(c)
             if cf and (cf.get('impl_trait') or '').endswith('ops::Drop') and (cf.get('impl_adt') or '').endswith('GenericReceiver'):
                 R.ok('C08.R2', 'clear-caller|%s' % c)
+            elif cf and clears_ and not any(_clear_events(path) for path in E.run(c)):
+                # it shares a private helper with the receiver's destructor, and the arguments it passes keep every
+                # one of its own paths away from the discard
+                R.ok('C08.R2', 'clear-caller|%s|no path of it reaches the discard' % c)
             else:
                 R.fail('C08.R2', [c, 'clear-caller'], 'ChannelState::clear (discarding buffered values) is called '
                        'from %s' % c, '%s:%s' % (cf['file'], cf['line']) if cf else None)
@@ -310,11 +322,7 @@ def run(C, R):
             for path in E.run(c):
                 if path.exit != 'return':
                     continue
-                clears = [e for e in path.events if e['k'] == 'call' and e['callee'] == clear['path']]
-                if not clears_:
-                    # folded: the drain loop's own buffer accesses are the discard
-                    clears = [e for e in path.events if e['k'] == 'call' and e.get('name') in ('is_empty', 'pop')
-                              and 'RingBuf' in e.get('callee', '') and e.get('fn') == clear['path']]
+                clears = _clear_events(path)
                 if not clears:
                     continue
                 subs = [e for e in path.events if e['k'] == 'call' and e['name'] == 'fetch_sub'
